@@ -106,6 +106,9 @@ def run_cases(name, part, workdir, binary=None):
         sys.stderr.write(p.stdout[-2000:] + p.stderr[-4000:])
         raise ToolError("cases harness failed on %s" % name)
     rr = json.load(open(res_file))
+    if rr.get("table_errors", 0):
+        te = [m.get("table_error") for m in rr["first_mismatches"] if m.get("table_error")]
+        raise ToolError("constants of %s disagree with the library they describe: %s" % (part["spec"], te[:2]))
     info = {"config": name, "spec": part["spec"], "states": r["distinct"], "transitions": max(r["generated"], 1), "depth": r["depth"],
             "tlc_s": r["tlc_s"], "actions_taken": {}, "cases": rr["cases"], "mismatch": rr["mismatch"],
             "first_mismatches": rr["first_mismatches"][:5], "conform": rr["cases"] - rr["mismatch"], "nonconform": 0,
@@ -232,7 +235,7 @@ def managed_check(pid, tier, seed):
     for entry in spec["configs"][tier]:
         if isinstance(entry, dict):
             log("[%s] table %s (%s): TLC enumerates the cases, the harness runs them on the code ..." % (pid, entry["name"], entry["spec"]))
-            info = run_cases(entry["name"], entry, workdir, binary=entry.get("binary"))
+            info = run_cases(entry["name"], entry, workdir, binary=XH if entry.get("binary") == "xh" else None)
             infos.append(info)
             log("[%s]   %d cases, %d mismatch, %.1fs" % (pid, info["cases"], info["mismatch"], info["tlc_s"] + info["replay_s"]))
             for mm in info["first_mismatches"]:
